@@ -266,8 +266,8 @@ func c31RunScenario(x *mc.Exec, sc c31Scenario, rep *mc.Report) mc.Verdict {
 	if res.Deadlock || res.StepCap || res.Horizon || !closedOK {
 		return mc.Verdict{Violation: fmt.Sprintf("%s: execution did not finish (%+v)", sc.name, res), Sig: "C31:stuck", Detail: map[string]any{"scenario": sc.name, "blocked": res.Blocked}}
 	}
-	if res.Leaked > 0 {
-		panic(c31Infra(fmt.Sprintf("%d goroutines leaked in scenario %s", res.Leaked, sc.name)))
+	if res.Leaked > 0 && !vsched.NoteLeak(res.Leaked) {
+		panic(c31Infra(fmt.Sprintf("too many leaked goroutines (%d more in scenario %s)", res.Leaked, sc.name)))
 	}
 	_ = eg
 	var ids []string
